@@ -5,7 +5,8 @@ import OpcuaModel.Model.Limits
     xfer <c2s|s2c> <hello: rcv snd maxMsg maxChunks> <ack: rcv snd maxMsg maxChunks> <n>
       → neg <client view> | <server view> open ok wire <count> <max> <last> send <sent|refused> recv <verdict>
       → neg <client view> | <server view> open refused-by-<server|client> <verdict> opn <wire> <body>
-  policy None / mode None, as in the correspondence run.
+  policy None / mode None, as in the correspondence run; `xfer-sign …` is the same under
+  Basic256Sha256 / Sign (no OpenSecureChannel model: the runner only uses configurations that open).
 -/
 open Opcua Opcua.Limits
 
@@ -19,7 +20,27 @@ def showVerdict : Verdict → String
 
 def nats (l : List String) : Option (List Nat) := l.mapM (·.toNat?)
 
+/-- `xfer-sign`: the same transfer under Basic256Sha256 / Sign (the channel is assumed to open) -/
+def handleSign (dir : String) (rest : List String) : String :=
+  match nats rest, Gen.symmetricRows.find? (·.name == "Basic256Sha256") with
+  | some [c1, c2, c3, c4, s1, s2, s3, s4, n], some a =>
+    let vs := negotiate ⟨c1, c2, c3, c4⟩ ⟨s1, s2, s3, s4⟩
+    let pre := s!"neg {showAck vs.client} | {showAck vs.server}"
+    let sides : Option (Ack × Ack) :=
+      if dir == "c2s" then some (vs.client, vs.server)
+      else if dir == "s2c" then some (vs.server, vs.client) else none
+    match sides with
+    | none => "bad-op"
+    | some (sv, rv) =>
+      let verdict := (transfer a .sign sv rv n).2
+      match send a .sign sv n with
+      | .refused => s!"{pre} open ok wire 0 0 0 send refused recv nothing-sent"
+      | .sent wire =>
+        s!"{pre} open ok wire {wire.length} {wire.foldl max 0} {wire.getLast?.getD 0} send sent recv {showVerdict verdict}"
+  | _, _ => "bad-op"
+
 def handle : List String → String
+  | "xfer-sign" :: dir :: rest => handleSign dir rest
   | "xfer" :: dir :: rest =>
     match nats rest with
     | some [c1, c2, c3, c4, s1, s2, s3, s4, n] =>
